@@ -687,6 +687,35 @@ int main(int argc, char **argv) {
       else
         oputs("-");
       oputs("\n");
+    } else if (!strcmp(c, "asmrep")) {
+      /* asmrep <id> <count> <hex line>: assemble a program made of <count> repetitions of one line (built here, so that programs of
+       * tens of megabytes do not have to travel through the script) */
+      long cnt = atol(tok[2]);
+      char *ln = NULL;
+      size_t ll = 0;
+      if (cnt < 0 || unhex(tok[3] ? tok[3] : "-", &ln, &ll)) {
+        oputs("E hex\n");
+        continue;
+      }
+      char *text = malloc((ll + 1) * (size_t)cnt + 1);
+      char *w = text;
+      for (long i = 0; i < cnt; i++) {
+        memcpy(w, ln, ll);
+        w += ll;
+        *w++ = '\n';
+      }
+      *w = 0;
+      int before = asm_get_offset(x->al);
+      x->last_before = before;
+      wrap_in_api = 1;
+      int rc = asm_assemble_str(x->al, text);
+      wrap_in_api = 0;
+      int after = asm_get_offset(x->al);
+      if (rc == 0 && after > before && after > x->hiwater)
+        x->hiwater = after;
+      free(text);
+      free(ln);
+      oprintf("A %d %d %d -777 0 0 0\n", rc, before, after);
     } else if (!strcmp(c, "wfile")) {
       /* wfile <id> <path> <hex>: (re)write a file in the middle of a script - the same path then holds other contents */
       char *data = NULL;
